@@ -2,7 +2,7 @@
    Only statements, `exact`, Print Assumptions (+ concrete non-vacuity examples). Definitions: Model/C04Model.v. *)
 From Coq Require Import List Arith Bool ZArith.
 From PV Require Import Base.Index Np.Array Model.Sparse Model.C04Model Proofs.C04Dense Proofs.C04Sparse Proofs.C04History Proofs.C04Admissible Proofs.C04RegionGet Proofs.C04Region
-  Model.Harness Model.C04Harness Model.C04Mat Model.C04Extra Proofs.C04NpAdv Proofs.C04Mat Model.C04AdvVal Proofs.C04AdvVal Model.C04SpMatImpl Proofs.C04SpMatImpl Proofs.C04SpMatAgree Proofs.C04NpAdvExact.
+  Model.Harness Model.C04Harness Model.C04Mat Model.C04Extra Proofs.C04NpAdv Proofs.C04Mat Model.C04AdvVal Proofs.C04AdvVal Model.C04SpMatImpl Proofs.C04SpMatImpl Proofs.C04SpMatAgree Proofs.C04NpAdvExact Proofs.C04NpAdvBlock.
 Import ListNotations.
 
 Section C04.
@@ -258,6 +258,18 @@ Theorem C04_np_adv_single_list : forall (s : shape) (es : list kelem) ls (A B : 
   np_adv_positions s es = Some (kept_shape ls, cartF (map snd ls)).
 Proof. exact np_adv_single_list. Qed.
 
+(* wave 5, the other half of the exactness of the A-16 trigger: ONE index list with integers directly next to it (an adjacent advanced
+   block I1, l, I2 between the slices A and B): numpy's selection is again the outer product - same result shape (the integer
+   modes dropped), same positions, same order.  Together with C04_np_adv_single_list: a dense key with a single index list leaves
+   the specification only when a slice separates the list from an integer - the class of the open finding *)
+Theorem C04_np_adv_list_with_ints : forall (s : shape) (es : list kelem) ls (A B : list (list nat)) (I1 I2 l : list nat),
+  s <> [] -> region_lists s es = Some ls -> l <> [] ->
+  map is_adv es = repeat false (length A) ++ repeat true (length I1 + 1 + length I2) ++ repeat false (length B) ->
+  map snd ls = A ++ map sing I1 ++ l :: map sing I2 ++ B ->
+  map fst ls = repeat true (length A) ++ repeat false (length I1) ++ true :: repeat false (length I2) ++ repeat true (length B) ->
+  np_adv_positions s es = Some (kept_shape ls, cartF (map snd ls)).
+Proof. exact np_adv_list_with_ints. Qed.
+
 (* slices never address a position twice (Python slice semantics, any bounds and any non-zero step) *)
 Theorem C04_slice_positions_distinct : forall len a b c, NoDup (py_slice len a b c).
 Proof. exact py_slice_nodup. Qed.
@@ -303,6 +315,7 @@ Print Assumptions C04_sptenmat_setitem_refines.
 Print Assumptions C04_sptenmat_setitem_total.
 Print Assumptions C04_sptenmat_impl_agrees.
 Print Assumptions C04_np_adv_single_list.
+Print Assumptions C04_np_adv_list_with_ints.
 Print Assumptions C04_np_bcast_exact.
 Print Assumptions C04_np_adv_set_values_exact.
 Print Assumptions C04_np_adv_set_values_in_region.
@@ -397,3 +410,9 @@ Example C04_example_np_adv_single_list :
   np_adv_positions [3; 4; 2]%nat [KSlice None None (Some 2); KList [3; 0; 3]; KSlice None None None]
   = Some ([2; 3; 2]%nat, cartF [[0; 2]; [3; 0; 3]; [0; 1]]%nat).
 Proof. exact np_adv_single_list_example. Qed.
+
+(* wave 5 non-vacuity: T[::2, 1, [3, 0], :] on a 3 x 4 x 4 x 5 tensor (confirmed on pyttb / numpy): shape (2, 2, 5), outer-product order *)
+Example C04_example_np_adv_list_with_ints :
+  np_adv_positions [3; 4; 4; 5]%nat [KSlice None None (Some 2); KInt 1; KList [3; 0]; KSlice None None None]
+  = Some ([2; 2; 5]%nat, cartF [[0; 2]; [1]; [3; 0]; [0; 1; 2; 3; 4]]%nat).
+Proof. exact np_adv_list_with_ints_example. Qed.
